@@ -29,6 +29,8 @@ inductive Prov where
   | mem
   /-- inside a generated attribute `#[…]` -/
   | attr
+  /-- an integer literal computed by the expander (`0usize`, written by `idxLit` only) -/
+  | num
 deriving Repr, BEq, DecidableEq, Inhabited
 
 structure GTok where
@@ -87,6 +89,9 @@ end
 
 /-- `::a::b::c` — the only producer of `abs` tokens -/
 def absPath (segs : List String) : GToks := segs.flatMap (fun s => [("::" : GTok), { s, p := .abs }])
+
+/-- `<i>usize` — the only producer of `num` tokens -/
+def idxLit (i : Nat) : GTok := { s := toString i ++ "usize", p := .num }
 
 /-- a generated attribute `#[ … ]` — the only producer of `attr` tokens -/
 def genAttr (inner : List String) : GToks :=
